@@ -1416,6 +1416,220 @@ theorem mapPipeline_getElem {κ} (t0 t : RawTree) (cfg : Config) (vote : Oracle 
     rw [List.getElem?_map, getElem?_zipWith_some _ ids cells i id c hid hc]; rfl
   exact mapM_getElem _ _ out hout i _ hget
 
+/-! ### `backfill_assignments` when it succeeds (no path given in advance) -/
+
+theorem backfillOne_ok_cases (tMeta : RawTree) (c p : Level) (r r1 : Record)
+    (h : backfillOne tMeta c p r = .ok r1) :
+    ((r.levels.lookup p).isSome ∧ r1 = r) ∨
+    (r.levels.lookup p = none ∧ r.levels.lookup c = none ∧ r1 = r) ∨
+    (r.levels.lookup p = none ∧ ∃ ec pn, r.levels.lookup c = some ec ∧
+      tMeta.childToParent c ec.assignment = some pn ∧
+      r1 = { r with levels := r.levels ++ [(p, inferred ec pn)] }) := by
+  unfold backfillOne at h
+  cases hp : r.levels.lookup p with
+  | some ep =>
+    simp only [hp, Option.isSome_some, if_true] at h
+    cases h; exact Or.inl ⟨rfl, rfl⟩
+  | none =>
+    simp only [hp, Option.isSome_none, Bool.false_eq_true, if_false] at h
+    cases hc : r.levels.lookup c with
+    | none =>
+      simp only [hc] at h
+      cases h; exact Or.inr (Or.inl ⟨rfl, rfl, rfl⟩)
+    | some ec =>
+      simp only [hc] at h
+      cases hq : tMeta.childToParent c ec.assignment with
+      | none => simp only [hq] at h; cases h
+      | some pn =>
+        simp only [hq] at h
+        cases h
+        exact Or.inr (Or.inr ⟨rfl, ec, pn, rfl, hq, rfl⟩)
+
+theorem backfillPairs_ok_spec (tMeta : RawTree) :
+    ∀ (xs : List Level) (r r' : Record), xs.Nodup →
+      (∀ l, xs.head? = some l → (r.levels.lookup l).isSome) →
+      backfillPairs tMeta (pairsOf xs) r = .ok r' →
+      r'.cellId = r.cellId ∧
+      (∀ l e, r.levels.lookup l = some e → r'.levels.lookup l = some e) ∧
+      (∀ l, l ∉ xs → r'.levels.lookup l = r.levels.lookup l) ∧
+      (∀ l ∈ xs, (r'.levels.lookup l).isSome) ∧
+      (∀ cp ∈ pairsOf xs, r.levels.lookup cp.2 = none →
+        ∃ ec pn, r'.levels.lookup cp.1 = some ec ∧
+          tMeta.childToParent cp.1 ec.assignment = some pn ∧
+          r'.levels.lookup cp.2 = some (inferred ec pn))
+  | [], r, r', _, _, h => by
+    simp [pairsOf, backfillPairs] at h; cases h
+    exact ⟨rfl, fun _ _ h => h, fun _ _ => rfl, by simp, by simp [pairsOf]⟩
+  | [c], r, r', _, hhead, h => by
+    simp [pairsOf, backfillPairs] at h; cases h
+    refine ⟨rfl, fun _ _ h => h, fun _ _ => rfl, ?_, by simp [pairsOf]⟩
+    intro l hl
+    simp only [List.mem_singleton] at hl
+    subst hl
+    exact hhead l rfl
+  | c :: p :: rest, r, r', hnd, hhead, h => by
+    have hpairs : pairsOf (c :: p :: rest) = (c, p) :: pairsOf (p :: rest) := by simp [pairsOf]
+    rw [hpairs] at h
+    simp only [backfillPairs] at h
+    cases h1 : backfillOne tMeta c p r with
+    | error e => rw [h1] at h; cases h
+    | ok r1 =>
+      rw [h1] at h
+      simp only at h
+      have hc := hhead c rfl
+      have hnd' := List.nodup_cons.mp hnd
+      have hcp : c ≠ p := fun he => hnd'.1 (by simp [he])
+      -- facts about the (c, p) iteration
+      have step : r1.cellId = r.cellId ∧ (r1.levels.lookup p).isSome ∧
+          (∀ l e, r.levels.lookup l = some e → r1.levels.lookup l = some e) ∧
+          (∀ l, l ≠ p → r1.levels.lookup l = r.levels.lookup l) ∧
+          (r.levels.lookup p = none → ∃ ec pn, r.levels.lookup c = some ec ∧
+            tMeta.childToParent c ec.assignment = some pn ∧
+            r1.levels.lookup p = some (inferred ec pn)) := by
+        rcases backfillOne_ok_cases tMeta c p r r1 h1 with ⟨hs, rfl⟩ | ⟨_, hcn, rfl⟩ |
+            ⟨hpn, ec, pn, hec, hq, rfl⟩
+        · refine ⟨rfl, hs, fun _ _ h => h, fun _ _ => rfl, ?_⟩
+          intro hn; rw [hn] at hs; cases hs
+        · rw [hcn] at hc; cases hc
+        · refine ⟨rfl, ?_, ?_, ?_, ?_⟩
+          · simp only [lookup_append_single, hpn]; simp
+          · intro l e hl; simp only [lookup_append_single, hl]
+          · intro l hl
+            have : (l == p) = false := by simpa using hl
+            simp only [lookup_append_single]
+            cases r.levels.lookup l <;> simp [this]
+          · intro _
+            refine ⟨ec, pn, hec, hq, ?_⟩
+            simp only [lookup_append_single, hpn]; simp
+      obtain ⟨hid1, hp1, hkeep1, hother1, hinf1⟩ := step
+      obtain ⟨hid2, hkeep2, hother2, hall2, hinf2⟩ :=
+        backfillPairs_ok_spec tMeta (p :: rest) r1 r' hnd'.2
+          (fun l hl => by simp at hl; subst hl; exact hp1) h
+      refine ⟨by rw [hid2, hid1], fun l e hl => hkeep2 l e (hkeep1 l e hl), ?_, ?_, ?_⟩
+      · intro l hl
+        have h1' : l ∉ p :: rest := fun h => hl (List.mem_cons_of_mem _ h)
+        have h2' : l ≠ p := fun h => h1' (by simp [h])
+        rw [hother2 l h1', hother1 l h2']
+      · intro l hl
+        rcases List.mem_cons.mp hl with he | hm
+        · subst he
+          cases hce : r.levels.lookup l with
+          | none => rw [hce] at hc; cases hc
+          | some e => rw [hkeep2 l e (hkeep1 l e hce)]; rfl
+        · exact hall2 l hm
+      · intro cp hm hnone
+        rcases List.mem_cons.mp hm with he | hm'
+        · subst he
+          obtain ⟨ec, pn, hec, hq, hpe⟩ := hinf1 hnone
+          exact ⟨ec, pn, hkeep2 _ _ (hkeep1 _ _ hec), hq, hkeep2 _ _ hpe⟩
+        · have hcp2 : cp.2 ≠ p := by
+            intro he
+            have hm2 : cp.2 ∈ rest := by
+              have : cp ∈ (p :: rest).zip rest := hm'
+              exact (List.of_mem_zip this).2
+            rw [he] at hm2
+            exact (List.nodup_cons.mp hnd'.2).1 hm2
+          have hn1 : r1.levels.lookup cp.2 = none := by rw [hother1 _ hcp2]; exact hnone
+          exact hinf2 cp hm' hn1
+
+theorem backfillPairs_all_present (tMeta : RawTree) : ∀ (ps : List (Level × Level)) (r : Record),
+    (∀ cp ∈ ps, (r.levels.lookup cp.2).isSome) → backfillPairs tMeta ps r = .ok r
+  | [], _, _ => rfl
+  | (c, p) :: rest, r, h => by
+    have hp := h (c, p) (by simp)
+    simp only [backfillPairs, backfillOne, hp, if_true]
+    exact backfillPairs_all_present tMeta rest r (fun cp hm => h cp (List.mem_cons_of_mem _ hm))
+
+theorem dropCells_hierarchy (t : RawTree) : t.dropCells.hierarchy = t.hierarchy := by
+  unfold RawTree.dropCells
+  split <;> rfl
+
+theorem lookup_isSome_of_keys {β} : ∀ (m : List (Nat × β)) (k : Nat),
+    k ∈ m.map (·.1) → (m.lookup k).isSome
+  | [], _, h => by cases h
+  | (k', v) :: m, k, h => by
+    simp only [List.lookup]
+    split
+    · rfl
+    · rename_i hne
+      have hne' : k ≠ k' := by simpa using hne
+      simp only [List.map_cons, List.mem_cons] at h
+      rcases h with h | h
+      · exact absurd h hne'
+      · exact lookup_isSome_of_keys m k h
+
+theorem lookup_none_of_not_keys {β} : ∀ (m : List (Nat × β)) (k : Nat),
+    k ∉ m.map (·.1) → m.lookup k = none
+  | [], _, _ => rfl
+  | (k', v) :: m, k, h => by
+    simp only [List.map_cons, List.mem_cons, not_or] at h
+    have : (k == k') = false := by simpa using h.1
+    simp only [List.lookup, this]
+    exact lookup_none_of_not_keys m k h.2
+
+theorem markDirect_keys (h : List Level) (r : Record) :
+    (markDirect h r).levels.map (·.1) = r.levels.map (·.1) := by
+  simp only [markDirect, List.map_map]
+  apply List.map_congr_left
+  intro le _
+  obtain ⟨l, e⟩ := le
+  simp only [Function.comp]
+  split <;> rfl
+
+/-- the keys of the flagged record of a cell are the levels of the run's tree -/
+theorem record_keys {κ} {t : RawTree} {vote : Oracle κ} (hwf : wfb t = true) (hv : VoteOK t vote)
+    (id : CellId) (c : κ) :
+    (markDirect t.hierarchy (mkRecord t vote id c)).levels.map (·.1) = t.hierarchy := by
+  rw [markDirect_keys]
+  obtain ⟨r, hr, hp⟩ := walk_path hwf hv c
+  simp only [mkRecord, walkD, hr]
+  exact hp.1
+
+/-- the hierarchy after `drop_level` is the old one without that level -/
+theorem dropLevel_hierarchy {t t' : RawTree} {l : Level} (h : t.dropLevel l = .ok t') :
+    l ∈ t.hierarchy ∧ t'.hierarchy = t.hierarchy.erase l := by
+  unfold RawTree.dropLevel at h
+  cases hraw : t.dropLevelRaw l with
+  | error e => rw [hraw] at h; cases h
+  | ok t1 =>
+    rw [hraw] at h
+    simp only at h
+    have ht : t1 = t' := by
+      cases hv : t1.validate with
+      | error e => rw [hv] at h; cases h
+      | ok u => rw [hv] at h; cases h; rfl
+    subst ht
+    unfold RawTree.dropLevelRaw at hraw
+    split at hraw
+    · cases hraw
+    · cases hidx : t.levelIdx l with
+      | none => simp only [hidx] at hraw; cases hraw
+      | some idx =>
+        simp only [hidx] at hraw
+        have hmem : l ∈ t.hierarchy := by
+          have : (t.hierarchy.idxOf? l).isSome := by
+            simp only [RawTree.levelIdx] at hidx; rw [hidx]; rfl
+          exact List.isSome_idxOf?.mp this
+        have herase : t.hierarchy.erase l = t.hierarchy.eraseIdx idx := by
+          rw [List.erase_eq_eraseIdx]
+          simp only [RawTree.levelIdx] at hidx
+          rw [hidx]
+        refine ⟨hmem, ?_⟩
+        split at hraw
+        · cases hraw
+        · split at hraw
+          · rename_i h0
+            have : idx = 0 := by simpa using h0
+            subst this
+            cases hraw
+            simp only [herase, List.eraseIdx_zero, List.drop_one]
+          · cases hprev : t.hierarchy[idx - 1]? with
+            | none => simp only [hprev] at hraw; cases hraw
+            | some pl =>
+              simp only [hprev] at hraw
+              cases hraw
+              simp only [herase]
+
 /-! ### a concrete instance for the non-vacuity examples of `Props/C01, C06, C17` -/
 
 /-! a 3-level taxonomy with a single top node (10), a single-child parent (20)
